@@ -151,6 +151,7 @@ def jobs_spec_views(rng, tier, names, quick=14, thorough=150, nmax=8, minn=None,
         # ordinary shapes in units of 2^-40 and 2^30: an absolute threshold (epsilon, 1e-10, ...) in a view shows up there
         # (wave-4 seed C13d: WelfordRolling reported 0 while n·sigma² <= epsilon)
         fams = list(fams) + ["tiny", "huge"]
+    fams = list(fams or gen.FAMILIES) + ["level"]
     for nm in names:
         for _ in range(scale_n(tier, quick, thorough)):
             e = gen.gen_unary(rng, ECHO, nmax, [nm])
@@ -1171,6 +1172,23 @@ def jobs_C16(rng, tier):
             Lr = (10 ** 4 if tier == "thorough" else 2000) if nm in ("wroll", "drawdown", "lnret") else 60
             xs = three_decades(rng, Lr, signed=nm not in ("drawdown", "lnret"))
             js.append(FpTrack(e, xs, 1e-6, C16_SCALE[nm], fam="three_decades"))
+    # a quiet series at a high level (values near 10^6 ... 10^9 moving in steps of 1/64): the dynamic range of the VALUES is 1, but
+    # a sum of squares minus the square of the sum, or a threshold relative to the level, loses the spread (wave-5 seeds C13e,
+    # C16e).  Views that are ill-conditioned here already in the unchanged crate are left out (CTI: K5; Vst/Vsct: Welford's m2
+    # drift, K3/K4; LaguerreRSI's ratio of tiny sums).
+    for nm in ("sma", "cum", "min", "max", "wo", "hln", "bent", "cog", "net", "rsi", "myrsi", "alma", "roc", "ema", "lagf", "ss", "cc", "wroll",
+               "tflex", "rflex"):
+        for _ in range(scale_n(tier, 2, 12)):
+            n = rng.randint(2, 12)
+            e = rec_expr(rng, nm, max(n, 6)) if nm in ("lagf", "cc", "tflex", "rflex") else mk(nm, ECHO, gen.gen_params(rng, nm, 12, n=n))
+            # (exact rationals of the recursive filters grow with every step: short runs for those)
+            xs = gen.stream(rng, "level", 40 if nm in ("ema", "lagf", "ss", "cc", "tflex", "rflex") else rng.choice([60, 400]), n)
+            if nm in ("roc", "cog"):
+                xs = [abs(x) for x in xs]
+            sk = C16_SCALE[nm]
+            if sk in ("cog", "roc"):
+                sk = dict(cog=float(n), roc=1e5)[sk]
+            js.append(FpTrack(e, xs, 1e-6, sk, fam="level"))
     # long CONSTANT streams: the exact answer is known in closed form, so only the f64 run is needed (10^6 values)
     for nm in ("wroll", "drawdown", "lnret"):
         for it in range(scale_n(tier, 2, 6)):
